@@ -22,20 +22,31 @@ def main():
     try:
         patch = os.path.join(mdir, "patch.diff")
         demo = os.path.join(mdir, "demo.cpp")
-        rc, o = sh(["g++", "-std=c++17", "-I", wt + "/include", demo, "-o", wt + "/demo_clean"])
-        res["demo_compiles_clean"] = rc == 0
-        rc, o = sh([wt + "/demo_clean"], cwd=wt, timeout=120)
-        res["demo_clean_rc"] = rc
+        demosh = os.path.join(mdir, "demo.sh")
+        use_sh = os.path.exists(demosh)
+        if use_sh:
+            rc, o = sh(["sh", demosh, wt + "/include"], cwd=mdir, timeout=600)
+            res["demo_compiles_clean"] = True
+            res["demo_clean_rc"] = rc
+        else:
+            rc, o = sh(["g++", "-std=c++17", "-pthread", "-I", wt + "/include", demo, "-o", wt + "/demo_clean"])
+            res["demo_compiles_clean"] = rc == 0
+            rc, o = sh([wt + "/demo_clean"], cwd=wt, timeout=300)
+            res["demo_clean_rc"] = rc
         rc, o = sh(["git", "-C", wt, "apply", os.path.abspath(patch)])
         res["patch_applies"] = rc == 0
         if rc != 0:
             res["error"] = o[-500:]
-        rc, o = sh(["g++", "-std=c++17", "-I", wt + "/include", demo, "-o", wt + "/demo_mut"])
-        res["demo_compiles_mutant"] = rc == 0
-        try:
-            rc, o = sh([wt + "/demo_mut"], cwd=wt, timeout=120)
-        except subprocess.TimeoutExpired:
-            rc, o = 124, "timeout"
+        if use_sh:
+            rc, o = sh(["sh", demosh, wt + "/include"], cwd=mdir, timeout=600)
+            res["demo_compiles_mutant"] = True
+        else:
+            rc, o = sh(["g++", "-std=c++17", "-pthread", "-I", wt + "/include", demo, "-o", wt + "/demo_mut"])
+            res["demo_compiles_mutant"] = rc == 0
+            try:
+                rc, o = sh([wt + "/demo_mut"], cwd=wt, timeout=300)
+            except subprocess.TimeoutExpired:
+                rc, o = 124, "timeout"
         res["demo_mutant_rc"] = rc
         res["demo_mutant_tail"] = o[-300:]
         rc, o = sh(f"cmake -S {wt} -B {wt}/_build -G Ninja -DBUILD_TESTS=ON -DCMAKE_BUILD_TYPE=RelWithDebInfo -DCMAKE_CXX_FLAGS=-Wno-error >/dev/null && cmake --build {wt}/_build 2>&1 | tail -2 && ctest --test-dir {wt}/_build -j8 --timeout 300 2>&1 | tail -3")
@@ -71,6 +82,8 @@ def main():
             os.makedirs(d, exist_ok=True)
             shutil.copy(patch, os.path.join(d, "patch.diff"))
             shutil.copy(demo, os.path.join(d, "demo.cpp"))
+            if use_sh:
+                shutil.copy(demosh, os.path.join(d, "demo.sh"))
             meta = {
                 "property": pid,
                 "breaks": notes.strip()[:1500],
